@@ -229,6 +229,7 @@ for k in ["fixed32", "fixed4096", "fixed_max", "multipart"]:
 M_TABLE.harnesses.append(H("canary_u9_value", "U9", kind="canary"))
 M_LOG = KModule("log", "src/log.rs", "verif_log", "log.rs")
 M_TABLE.deps = (M_LOG,)
+M_LOG.harnesses.append(H("u32_log_file_synced_before_it_becomes_readable", "U32", kind="bounded", shape="Log::flush_one on a log with an empty write buffer; sizes, id and sync option arbitrary", bound="sync succeeds (the failing-sync path drops a File, which needs close(2): not modelled)"))
 # (u26_* exist in the contract file but std HashMap (hashbrown) insertion does not finish symbolic execution within budget; not registered)
 for n in []:
     M_LOG.harnesses.append(H(n, "U26", shape="LogWriter::insert_%s called three times on two chunks of one table; slots, record id and contents arbitrary" % ("ref_count" if "ref" in n else "index")))
@@ -336,6 +337,11 @@ M_DB.harnesses.append(H("u24_operations_are_ordered_by_key_only", "U24"))
 for n in ["u30_get_consults_commit_overlay_then_column", "u30_get_size_is_the_length_of_what_get_returns"]:
     M_DB.harnesses.append(H(n, "U30", kind="bounded", shape="DbInner::%s on a database with one hash column; overlay state and column content scripted (arbitrary)" % ("get_size" if "size" in n else "get"),
                             bound="one hash column; CommitOverlay::get_ref, HashColumn::{hash_key,get} by contract"))
+for n in ["u31_data_flushed_before_logs_are_reclaimed", "u31_clean_all_logs_flushes_first"]:
+    M_DB.harnesses.append(H(n, "U31", kind="bounded", shape="DbInner::%s; dirty-log count, sync_data and flush outcome arbitrary" % ("clean_all_logs" if "all" in n else "clean_logs"),
+                            bound="one column; Column::flush, Log::{num_dirty_logs,clean_logs} by contract"))
+M_DB.harnesses.append(H("u33_shutdown_drains_every_stage_in_order", "U33", kind="bounded", shape="DbInner::kill_logs with up to 2 commits in each of the three stages",
+                        bound="<= 2 items per stage; DbInner::{process_commits,flush_logs,enact_logs,clean_all_logs} and Log::kill_logs by contract over ghost counters"))
 for n in ["u29_get_searches_current_then_every_queued_index", "u29_get_size_is_the_length_of_the_value"]:
     M_COLUMN.harnesses.append(H(n, "U29", kind="bounded", shape="HashColumn::%s with an 18-bit current index and two queued older indexes; get_in_index by contract" % ("get_size" if "size" in n else "get"),
                                 bound="two queued old indexes; HashColumn::get_in_index by contract (U13)"))
@@ -505,6 +511,9 @@ UNIT_META = {
     "U22": {"functions": ["column::HashColumn::{trigger_reindex,drop_index}"], "assumes": ["IndexTable::drop_file replaced by a counter (file removal)"]},
     "U23": {"functions": ["btree::btree::BTree::write_sorted_changes"], "assumes": ["Node::change / need_remove_root / BTree::fetch_root / BTreeTable::write_node_plan / write_plan_remove_node replaced by contracts (scripted outcomes)"]},
     "U24": {"functions": ["db::Operation::{cmp,partial_cmp,key}"], "assumes": []},
+    "U32": {"functions": ["log::Log::flush_one"], "assumes": ["std::fs::File::sync_data replaced by its contract (recorder)", "the File is a raw descriptor never used for I/O; the write buffer is empty (BufWriter::into_inner performs no write)", "only the successful-sync path is exercised"]},
+    "U31": {"functions": ["db::DbInner::{clean_logs,clean_all_logs}"], "assumes": ["Column::flush (msync / fsync of every table of the column), Log::num_dirty_logs and Log::clean_logs (truncate and recycle log files) replaced by contracts (recorders)"]},
+    "U33": {"functions": ["db::DbInner::kill_logs"], "assumes": ["DbInner::{process_commits,flush_logs,enact_logs,clean_all_logs} and Log::kill_logs replaced by contracts over ghost stage counters: process_commits moves one queued commit into the appending log, flush_logs makes the appending log readable, enact_logs applies one readable record, each reporting whether it did anything"]},
     "U29": {"functions": ["column::HashColumn::{get,get_size}"], "assumes": ["HashColumn::get_in_index replaced by its contract (proved against its own callees by Verus, unit lookup_chain)"]},
     "U30": {"functions": ["db::DbInner::{get,get_size} (hash column branch)", "db::CommitOverlay::{get,get_size}"], "assumes": ["CommitOverlay::get_ref (std HashMap lookup) replaced by its contract: the latest queued write for the key, if any", "HashColumn::hash_key replaced by a scripted key (the same hashed key must reach overlay and column)", "HashColumn::get replaced by its contract (U29)"]},
     "U26": {"functions": ["log::LogWriter::{insert_index,insert_ref_count}"], "assumes": ["RandomState::new stubbed to fixed keys (hash seeds do not affect map semantics)", "chunk numbers are concrete (5 and 9): the map is the real std HashMap"]},
@@ -626,3 +635,32 @@ PROPS["C01"] = {
     "explanation": "Modular contracts per stage; bounded where a unit constructs a column or database value. Level 'other': the end-to-end statement over histories and schedules is not mechanised.",
     "does_not_cover": ["hand-over between pipeline stages (clean_overlay, log overlay retirement)", "clean close and reopen", "keys of any length (hash_key / blake2 is a contract)", "btree columns (C04)"],
 }
+
+PROPS["C12"] = {
+    "kani_units": ["U31", "U32"],
+    "verus_units": [],
+    "level": "other",
+    "technique": "Kani/CBMC modular ordering contract on the real log-reclaim step (DbInner::clean_logs / clean_all_logs) with the I/O callees replaced by recorders",
+    "claim": "Only the second half of the statement's 'equivalently' clause, and only for one step function: DbInner::clean_logs and clean_all_logs flush every column's tables before Log::clean_logs may truncate or recycle any log file (with sync_data; without it the newest KEEP_LOGS logs are kept instead), reclaim exactly the dirty logs beyond the kept ones, and reclaim nothing when a flush fails. Power loss itself (which pages reach the disk), the sync of a log file before its records are applied, and log reuse across restarts are not decided.",
+    "level_note": "Column::flush, Log::num_dirty_logs and Log::clean_logs are contracts (recorders). Log::flush_one (sync before the file becomes readable) holds a BufWriter<File> and is not under contract; the durable-image semantics of the property are outside this family (no file-system model).",
+    "trusted_base": TB,
+    "explanation": "One bounded modular harness family on a real DbInner value; level 'other' because only one ordering step of the property is decided.",
+    "does_not_cover": ["power-loss semantics (arbitrary subset of unsynced pages)", "Log::flush_one: log synced before its records can be applied", "Log::clean_logs body (rewind, set_len, sync_all, pool)", "log reuse across restart / recovery"],
+}
+PROPS["C03"] = {
+    "kani_units": ["U33"],
+    "verus_units": [],
+    "level": "other",
+    "technique": "Kani/CBMC modular contract on the real shutdown drain (DbInner::kill_logs) with the pipeline stage functions replaced by contracts over ghost stage counters",
+    "claim": "Only the clean-shutdown half, and only the drain order: whatever number of accepted commits sits in each stage when the handle is dropped (queued, logged but unflushed, flushed but unapplied; up to 2 each), DbInner::kill_logs runs the stage functions in an order that applies every one of them before data is flushed and logs are reclaimed, and removes log files only after that. That the worker threads have stopped before kill_logs runs, what the stage functions do, and survival of synced records across a crash are not decided.",
+    "level_note": "process_commits / flush_logs / enact_logs / clean_all_logs / Log::kill_logs are contracts over ghost counters (stated in the evidence). Thread joins in Db::drop_inner, the background-error path (only reclaims logs) and crash recovery are not covered.",
+    "trusted_base": TB,
+    "explanation": "Bounded modular harness on a real DbInner value; level 'other' because the stage functions are assumed contracts and crash survival is out of reach.",
+    "does_not_cover": ["thread shutdown / joins before kill_logs", "the stage functions themselves (process_commits, flush_logs, enact_logs)", "crash survival of synced records", "reopen replay (C13 covers the sequence gate only)"],
+}
+PROPS["C12"].update({
+    "technique": "Kani/CBMC modular ordering contracts on the real log hand-over step (Log::flush_one) and log-reclaim step (DbInner::clean_logs / clean_all_logs) with the I/O callees replaced by recorders",
+    "claim": "The two ordering steps of the statement's 'equivalently' clause, one function each: (1) Log::flush_one syncs the appending log file (with sync_wal) before the file enters the read queue, i.e. before any of its records can be applied to tables, and leaves a too-small log appending (bounded: successful sync only); (2) DbInner::clean_logs and clean_all_logs flush every column's tables before Log::clean_logs may truncate or recycle any log file (with sync_data; without it the newest KEEP_LOGS logs are kept instead), reclaim exactly the dirty logs beyond the kept ones, and reclaim nothing when a flush fails. Power loss itself (which unsynced pages reach the disk) and the composition of the steps over a history are not decided.",
+    "level_note": "std::fs::File::sync_data, Column::flush, Log::num_dirty_logs and Log::clean_logs are contracts (recorders). The failing-sync path of flush_one drops a File (close(2) is not modelled by Kani) and is not exercised. That records are applied only from the read queue is the structure of Log::read_next (not under contract). The durable-image semantics of the property are outside this family (no file-system model).",
+    "does_not_cover": ["power-loss semantics (arbitrary subset of unsynced pages)", "Log::flush_one when the sync fails", "Log::clean_logs body (rewind, set_len, sync_all, pool)", "Log::read_next (records are applied only from synced files)", "log reuse across restart / recovery"],
+})
